@@ -3,6 +3,14 @@
 EXTENDS MxjMapGen, Json
 Emit == PrintT(ToJson([f |-> "pure", m |-> m]))
 Spec == GenSpec
+\* beyond the builder's reach: a few fixed, richer Maps (lists of records below indexed steps) -- the read-only
+\* methods are called on them with indexed variants of every path and with sub-key conditions taken from their content
+Rec(a, c) == VM(("a" :> VS(a)) @@ ("c" :> VS(c)))
+Rich == {VM("a" :> VL(<<VM("b" :> VL(<<Rec("y", "1"), VM("a" :> VS("x"))>>)), VM("b" :> VL(<<VM("a" :> VS("x")), Rec("y", "2")>>))>>)),
+         VM(("a" :> VM("b" :> VL(<<VM("a" :> VS("y")), VM("a" :> VS("x")), VM(("a" :> VS("x")) @@ ("b" :> VB("true")))>>))) @@ ("b" :> VL(<<VM("a" :> VS("x")), VS("x"), VM("a" :> VS("y"))>>))),
+         VM("a" :> VL(<<VL(<<VM("a" :> VS("y")), VM("a" :> VS("x"))>>), VM("a" :> VL(<<VS("y"), VS("x"), VS("x")>>))>>)),
+         VM(("-x" :> VS("y")) @@ ("#text" :> VS("x")) @@ ("a" :> VL(<<VM(("-x" :> VS("y")) @@ ("#text" :> VS("t"))), VM(("-x" :> VS("x")) @@ ("#text" :> VS("t")))>>)))}
+SpecRich == m \in Rich /\ b1 = EmptyMap /\ b2 = EmptyMap /\ [][UNCHANGED genvars]_genvars
 cScalars == {VS("x"), VB("true"), VF("1"), VNil}
 cConts == {EmptyMap, EmptyList}
 =============================================================================
